@@ -36,6 +36,8 @@ type crashBuilt struct {
 	mintq  *HMintQ
 	meltq  *HMeltQ
 	retry  func() bool // sequential retry of the same request; true if it succeeded
+	// notify: the interrupted "operation" is the mint's invoice watcher reacting to the settle notification of this quote
+	notify *HMintQ
 }
 
 type crashCase struct {
@@ -106,6 +108,14 @@ func crashCases() []crashCase {
 		pollCase("poll-failed", []string{"failed"}, false),
 		pollCase("checkstate-paid", []string{"succ"}, true),
 		pollCase("checkstate-failed", []string{"failed"}, true),
+		{"notify-after-issued", nil, func(e *schedEnv, _ []string) crashBuilt {
+			// the client minted through the state-check path (the quote is ISSUED) before the node's settle notification
+			// reaches the watcher: whatever happens to the watcher's guarded read, an ISSUED quote stays ISSUED
+			q := e.s.OpMintQuote(8, "sat", 0, false)
+			e.s.Settle(q)
+			e.s.OpMint(q, e.g.outputs(8, e.env.ActiveKeysetId()), 0)
+			return crashBuilt{kind: "noop", notify: q}
+		}},
 		{"restart-after-fee-changing-rotation", nil, func(e *schedEnv, _ []string) crashBuilt {
 			// the active keyset was created by a runtime rotation with a fee that differs from the configured one: after
 			// ANY restart every keyset must come back with its own stored fee (safety: "the keysets are unchanged")
@@ -162,7 +172,15 @@ func (e *schedEnv) runCrashPoint(cs crashCase, k int, fault bool) (reached bool,
 	defer func() { c.Capture = nil }()
 	lnStart := len(e.env.LN.Calls)
 	cc := s.BeginConc(cs.script)
-	t := cc.Spawn(b.run)
+	var t *CThread
+	if b.notify != nil {
+		if t = cc.SpawnNotify(b.notify); t == nil {
+			cc.End()
+			return false, len(c.Res.Disagreements) > dis0
+		}
+	} else {
+		t = cc.Spawn(b.run)
+	}
 	for i := 0; i < k && !t.done; i++ {
 		cc.Step(t, false)
 	}
